@@ -459,6 +459,23 @@ class AsyncSrcProxy:
         return getattr(self._inner, name)
 
 
+class AsyncSrcLateClose(AsyncSrcProxy):
+    """An adapter that opens its stream at the first ``__anext__``: only from then on is there anything to close,
+    and only from then on does it forward ``aclose`` (before, ``hasattr(it, "aclose")`` is false).  Whether a source
+    can be closed is a question to ask when it is to be closed."""
+
+    opened = False
+
+    def __anext__(self) -> Any:
+        self.opened = True
+        return self._inner.__anext__()
+
+    def __getattr__(self, name: str) -> Any:
+        if name == "aclose" and not self.opened:
+            raise AttributeError(name)
+        return AsyncSrcProxy.__getattr__(self, name)
+
+
 class AsyncIterable:
     """An async *iterable* that is not its own iterator (a collection, a query): asked for an iterator it hands out
     a fresh one.  The counterparts call ``iter()`` on each argument exactly once; a second request would, for a
@@ -524,7 +541,7 @@ async def _async_gen(st: SrcState):
 
 FLAVOURS_SYNC = ("list", "tuple", "getitem_seq", "sync_iter", "sync_gen", "sync_iterable")
 FLAVOURS_ASYNC = ("async_gen", "async_class", "async_class_bare", "async_class_full", "async_class_asend",
-                  "async_class_future", "async_class_proxy", "async_class_lazy", "async_iterable")
+                  "async_class_future", "async_class_proxy", "async_class_lazy", "async_iterable", "async_class_lateclose")
 FLAVOURS = FLAVOURS_SYNC + FLAVOURS_ASYNC
 
 
@@ -557,6 +574,8 @@ def make_source(st: SrcState, flavour: str) -> Any:
         return AsyncSrcProxy(st)
     if flavour == "async_class_lazy":
         return AsyncSrcLazy(st)
+    if flavour == "async_class_lateclose":
+        return AsyncSrcLateClose(st)
     if flavour == "async_iterable":
         return AsyncIterable(st)
     if flavour == "sync_iterable":
